@@ -679,7 +679,12 @@ where
         for textselection in self {
             textselections.extend(textselection.related_text(operator))
         }
-        textselections.sort_unstable_by(|a, b| a.partial_cmp(b).unwrap());
+        textselections.sort_unstable_by(|a, b| {
+            //see textual_order(): equal ranges of different resources must not separate copies
+            a.partial_cmp(b)
+                .unwrap()
+                .then_with(|| a.resource().handle().cmp(&b.resource().handle()))
+        });
         textselections.dedup();
         textselections.into_iter()
     }
